@@ -34,7 +34,16 @@ def seeded():
         m = json.load(open(fn))
         rows.append("| %s | %s | %s | %s |" % (os.path.basename(os.path.dirname(fn)), m.get("property"), esc(m.get("needs", ""))[:200], esc(m.get("caught_by", "?"))[:200]))
     return "\n".join(rows)
-GEN = {"fixed": fixed, "findings": findings, "claims": claims, "seeded": seeded}
+def modelled():
+    allp = json.loads(subprocess.run([os.path.join(ROOT, "check"), "--dump-all"], capture_output=True, text=True).stdout)
+    rows = ["| property | hand-modelled Go functions (fingerprinted) | source files | regenerated specs / extractors |", "|---|---|---|---|"]
+    for pid in sorted(allp):
+        p = allp[pid]
+        ms = p.get("modelled", [])
+        files = sorted(set(m.split(":")[0] for m in ms))
+        rows.append("| %s | %d | %s | %s |" % (pid, len(ms), ", ".join(files)[:400], ", ".join(p.get("extract", []) + p.get("extract_bins", []))[:300]))
+    return "\n".join(rows)
+GEN = {"modelled": modelled, "fixed": fixed, "findings": findings, "claims": claims, "seeded": seeded}
 p = os.path.join(ROOT, "DESIGN.md")
 s = open(p).read()
 for name, fn in GEN.items():
